@@ -135,7 +135,7 @@ def shard(ctx):
                 elif lib.result_key(rec2) != lib.result_key(rec):
                     ctx.violation("chk-twin", {"kind": "chk-differs"}, job, "same as release", "differs")
         else:
-            w = workload.draw(rng, kinds=("isa", "casc", "corpus", "mut", "isamut"), weights=(2, 2, 3, 4, 2))
+            w = workload.draw(rng, kinds=("isa", "casc", "corpus", "mut", "isamut", "macro"), weights=(2, 2, 3, 4, 2, 2))
             job = workload.job_of(w, want=["spans", "banks"])
             rec = worker.run(job)
             ctx.evaluated()
